@@ -250,6 +250,30 @@ CLAIMED = {
         technique="TLA+ model checking of the sweep machine (TLC) + TLC trace validation of real runs with reference-computed atoms",
         design_ref="4/C02",
     ),
+    "C21": dict(
+        level="model_checking",
+        text="TimeGrid.tla transcribes _get_target_times one action per statement in exact arithmetic and under an adversarial IEEE-rounding model against TimeGridReq (strictly increasing, starts at 0, ends exactly at the duration, contains every multiple of dt and every requested time); "
+             "target-time lists recorded from the real code, the solver steps actually taken and the runs per noise trajectory are handed to TLC as data (TimeGridData.tla) which evaluates the same requirement (5.6k lists quick / 103k thorough).",
+        note="Rounding modelled as residues on at most 2 results; recorded lists decide violations; points compared at 1e-6 ns, grey-zone inputs (< 1e-3 ns apart) skipped and counted.",
+        technique="TLA+ model checking (TLC) + recorded-structure and trace-data validation in TLC",
+        design_ref="4/C21",
+    ),
+    "C14": dict(
+        level="model_checking",
+        text="ObsSchedule.tla models a backend run applying observables at t = 0 and after every step through the filter chain (backend pre-filter at 1e-10, Pulser __call__ at 0.5/duration, Results._store) against recorded = requested, once each, increasing, no raise; "
+             "every TLC-enumerated schedule is instantiated on real sequences and run on emu-sv, emu-mps TDVP and DMRG; get_result_times is compared with the requested set and with the model variants, with a hook cross-check (sv_obs / mps_fill).",
+        note="Times compared at 1e-9 relative; inputs exactly 0.5 ns apart or closer than 1e-4 ns skipped and counted; values at those times are decided by C01 / C02 / C13; Pulser's second stage is trusted and transcribed.",
+        technique="TLA+ model checking (TLC) + spec->code replay of every enumerated schedule + hook cross-check",
+        design_ref="4/C14",
+    ),
+    "C23": dict(
+        level="model_checking",
+        text="Interaction.tla models get_sequences (source selection, cutoff, SLM row / column zeroing), the interaction callable and the query time of each backend step against symmetry, source, exact cutoff, masked-before / full-after and query-inside-own-step; "
+             "every N = 3 scenario is realised on the real code both at SequenceData.interaction_matrix(t) and in both backends' steps (matrices and query times from hooks); N = 4 model-checked and sampled; seeded spec mutants must be rejected every run.",
+        note="Register entries compared within 1e-5 of C6/r^6 or C3/r^3 and bit-for-bit against Pulser's trajectory matrix; a query exactly at the SLM end and straddling steps are not decided by the statement.",
+        technique="TLA+ model checking (TLC) + spec->code replay + hook-trace step validation",
+        design_ref="4/C23",
+    ),
 }
 PENDING_REASON = "check not built yet in this round (planned in DESIGN.md section 4); not claimed until it runs"
 NOT_APPLICABLE = {}
